@@ -166,6 +166,13 @@ ModelledB(stmt, store, base) ==
         \A i \in 1..Len(ps) : ~RowBad(GroupKey(stmt, ps[i], EnvOf(stmt)))
 Modelled(stmt, store) == ModelledB(stmt, store, BaseRows(stmt, store))
 
+\* the documented meaning of the statement is "fails": some selected field definitely fails on a pair
+\* that passes WHERE and nothing in the statement is unmodelled (field evaluation is strict)
+ErrExpectedB(stmt, store, base) ==
+  /\ Evaluable(store, stmt.where, EnvOf(stmt))
+  /\ \A i \in 1..Len(base) : \A j \in 1..Len(base[i]) : base[i][j].t # "unspec"
+  /\ \E i \in 1..Len(base) : \E j \in 1..Len(base[i]) : base[i][j].t = "err"
+
 \* is `rows` an allowed answer to stmt, whose rows before ORDER BY / LIMIT are `base` ?
 SelectOKB(stmt, base, rows) ==
   IF stmt.order = <<>> THEN
